@@ -11,12 +11,14 @@ vars == <<ti, fi, ri>>
 El(p, lo) == [k |-> "elem", p |-> p, sp |-> <<>>, lo |-> lo, v |-> <<>>]
 Tx(p, v) == [k |-> "text", p |-> p, sp |-> <<>>, lo |-> <<>>, v |-> v]
 At(p, lo, v) == [k |-> "attr", p |-> p, sp |-> <<>>, lo |-> lo, v |-> v]
-\* <r id="7"><a>1</a><a>2</a><b x="t">hello</b><c><d>3</d><d>4</d></c><e/></r>
-UDoc == << [k |-> "root", p |-> 0, sp |-> <<>>, lo |-> <<>>, v |-> <<>>], El(1, <<"r">>), At(2, <<"i","d">>, <<"7">>),
-           El(2, <<"a">>), Tx(4, <<"1">>), El(2, <<"a">>), Tx(6, <<"2">>), El(2, <<"b">>), At(8, <<"x">>, <<"t">>), Tx(8, <<"h","e","l","l","o">>),
-           El(2, <<"c">>), El(11, <<"d">>), Tx(12, <<"3">>), El(11, <<"d">>), Tx(14, <<"4">>),
-           [k |-> "elem", p |-> 11, sp |-> U1, lo |-> <<"n">>, v |-> <<>>], Tx(16, <<"9">>),       \* <p:n xmlns:p="u1">9</p:n> inside c
-           El(2, <<"e">>) >>
+\* <r id="7"><a>1</a><a>2</a><b q:x="ns" x="t">hello</b><c><d>3</d><d>4</d><p:n>9</p:n></c><e/></r>
+UDoc == << [k |-> "root", p |-> 0, sp |-> <<>>, lo |-> <<>>, v |-> <<>>], El(1, <<"r">>), At(2, <<"i","d">>, <<"7">>),      \* 1 2 3
+           El(2, <<"a">>), Tx(4, <<"1">>), El(2, <<"a">>), Tx(6, <<"2">>), El(2, <<"b">>),                                  \* 4 5 6 7 8
+           [k |-> "attr", p |-> 8, sp |-> U2, lo |-> <<"x">>, v |-> <<"n","s">>],      \* 9: q:x="ns" written before the plain x: @x is the plain one
+           At(8, <<"x">>, <<"t">>), Tx(8, <<"h","e","l","l","o">>),                                                         \* 10 11
+           El(2, <<"c">>), El(12, <<"d">>), Tx(13, <<"3">>), El(12, <<"d">>), Tx(15, <<"4">>),                              \* 12 13 14 15 16
+           [k |-> "elem", p |-> 12, sp |-> U1, lo |-> <<"n">>, v |-> <<>>], Tx(17, <<"9">>),       \* 17 18: <p:n xmlns:p="u1">9</p:n> inside c
+           El(2, <<"e">>) >>                                                                                               \* 19
 ASSUME WellFormed(UDoc)
 C(nm) == Rel(<<Step("child", T_name("", nm))>>)
 A_ == C(<<"a">>)
@@ -64,6 +66,9 @@ Types == << Struct(<<Field(A_, Prim("string")), Field(Id, Prim("int")), Field(AE
                      Field(Rel(<<Step("child", T_name("", <<"e">>)), Step("preceding", T_name("", <<"d">>))>>), Ptr(Prim("float64"))),
                      \* a slice over it: "result order" may be ascending or descending (C03), the list carries rev
                      Field(Rel(<<Step("child", T_name("", <<"e">>)), Step("preceding", T_name("", <<"d">>))>>), Slice(Prim("int")))>>),
+            \* values beyond 32 bits: 2^63 fits uint64 only, 2^40 fits both 64-bit kinds
+            Struct(<<Field(NumE(Pow2(1, 63)), Prim("uint64")), Field(NumE(Pow2(1, 40)), Prim("int64")), Field(NumE(Pow2(1, 40)), Prim("uint64")),
+                     Field(NegE(NumE(Pow2(1, 40))), Prim("int64")), Field(NumE(Pow2(1, 63)), Slice(Prim("uint64")))>>),
             Bound2, Struct(<<Field(Cc, Bound2)>>), Slice(Struct(<<Field(Rel(<<Self>>), Ptr(Bound2))>>)),
             Ptr(Struct(<<Field(A_, Prim("string"))>>)), Ptr(Ptr(Struct(<<Field(Id, Prim("int32"))>>))),
             Slice(Prim("string")), Slice(Prim("int")), Slice(Prim("float32")), Slice(Prim("bool")), Slice(Ptr(Prim("string"))),
